@@ -18,7 +18,7 @@ LIBS = ["-lxml2", "-lelf", "-ldw", "-lpthread"]
 
 
 def _base_inc(repo):
-    return ["-I" + os.path.join(BUILD, "gen"), "-I" + repo, "-I" + repo + "/include",
+    return ["-I" + os.path.join(BUILD, "gen"), "-I" + os.path.join(BUILD, "gen", "include"), "-I" + repo, "-I" + repo + "/include",
             "-I" + repo + "/src", "-I" + repo + "/tools", "-I/usr/include/libxml2",
             "-DHAVE_CONFIG_H", '-DABIGAIL_ROOT_SYSTEM_LIBDIR="/usr/lib"', "-D" + GUARD]
 
